@@ -37,7 +37,8 @@ func genC10(r *rand.Rand, kind string) *c10Case {
 		// keep the climb to the maximum affordable
 		mx = mn + 10 + r.Intn(50)
 	}
-	fan := FanSpec{Kind: kind, NeverStop: true, HasRpm: true, HasEnable: r.Intn(2) == 0, HasPwm: true, SimMin: mn, SimMax: mx}
+	kind, home := homeKind(r, kind)
+	fan := FanSpec{Kind: kind, HomePath: home, NeverStop: true, HasRpm: true, HasEnable: r.Intn(2) == 0, HasPwm: true, SimMin: mn, SimMax: mx}
 	if kind == "hwmon" {
 		if r.Intn(2) == 0 {
 			fan.CfgMin, fan.CfgMax = iptr(mn), iptr(mx)
@@ -103,7 +104,7 @@ func checkC10(ctx *Ctx, c *c10Case) {
 	}()
 	n := sc.Window
 	B := c10Bound(n)
-	class := sc.Fan.Kind
+	class := sc.Fan.Label()
 	wclass := "window=1"
 	if n >= 2 {
 		wclass = "window>=2"
